@@ -1461,9 +1461,18 @@ def _run_ippo(case, rec):
 
 
 # ====================================================================== entry points
+AGENT_ID_STYLES = (
+    ["agent_0", "agent_1", "other_0"],
+    ["agent_1", "other_0", "agent_0"],  # one policy group declared in non-sorted order, interleaved with the other group
+    ["agent_9", "agent_10", "other_0"],  # "agent_10" sorts before "agent_9"
+)
+
+
 def run_case(case):
+    global AGENTS
     rec = Recorder()
     algo = case["algo"]
+    AGENTS = list(AGENT_ID_STYLES[int(case.get("seed", 0)) % 3 if algo in MA_DET + ["IPPO"] else 0])
     try:
         if algo in VALUE_DISCRETE:
             _run_value_discrete(case, rec)
